@@ -8,16 +8,16 @@ TRANSLATED = [T + "Translated." + n for n in ["make_last_to_evict_eq","insert_eq
 
 REGISTRY: dict[str, dict] = {
     "C05": dict(
-        modules=["C05", "Tables", "C07Grouped", "Translated"],
-        theorems=[T + "C05_mirror_history", T + "C05_prefix_disabled", T + "C05_term_level_iris", *TRANSLATED],
+        modules=["C05", "Tables", "C07Grouped", "Translated", "TranslatedFuncs"],
+        theorems=[T + "Translated.split_iri_eq", T + "C05_mirror_history", T + "C05_prefix_disabled", T + "C05_term_level_iris", *TRANSLATED],
         table_theorems=[T + "tables_constants"],
         rule="LOOKUP: all key histories up to a length over alphabets of size+2 for sizes 1..3 (exhaustive up to the "
              "stated length), random long histories for sizes 0..8, 16, 4096; TermEncoder→Decoder histories. "
              "Non-trivial = the history has more distinct keys than slots (evictions occur).",
     ),
     "C08": dict(
-        modules=["C08", "Tables", "Plugin"],
-        theorems=[T + "C08_hint_delimited", T + "C08_hint_single", T + "C08_hint_prefix", T + "C08_plugin_detected", T + "plugin_framing_follows_stream"],
+        modules=["C08", "Tables", "Plugin", "TranslatedFuncs"],
+        theorems=[T + "Translated.hint_eq", T + "C08_hint_delimited", T + "C08_hint_single", T + "C08_hint_prefix", T + "C08_plugin_detected", T + "plugin_framing_follows_stream"],
         table_theorems=[T + "tables_hint3", T + "tables_hint_short"],
         rule="HINT: detector tabulated over headers (quick: 16 representative byte values per position = 4096 headers; "
              "thorough: all 2^24) and checked to depend only on the three ==0x0A bits; paired delimited/non-delimited "
@@ -99,8 +99,8 @@ REGISTRY: dict[str, dict] = {
                      "are runtime behaviour the model cannot exhibit"],
     ),
     "C12": dict(
-        modules=["C06"],
-        theorems=[T + "C12_isolation"],
+        modules=["C06", "TranslatedFuncs"],
+        theorems=[T + "C12_isolation", T + "Translated.split_iri_eq"],
         rule="SER byte-exact against the pure model for a seed-derived workload set, re-run (a) after other streams were "
              "created and abandoned mid-way, (b) with generator steps of 4 serializers + parsers interleaved at random, (c) in "
              "4-8 threads, (d) in fresh subprocesses with PYTHONHASHSEED in {0,1,2,12345,...}; static AST scan of pyjelly for "
